@@ -1041,6 +1041,20 @@ pub fn run_text<T: DeserializeOwned>(path: &str, enc: Enc, data: &[u8], stats: &
             Enc::Utf8 => jomini::text::de::from_utf8_reader::<T, _>(rd),
         };
     }
+    // [a_c10] the deserializer-returning constructors called directly (the free functions wrap them)
+    if path == "mslice" {
+        return match enc {
+            Enc::W1252 => TextDeserializer::from_windows1252_slice(data)?.deserialize::<T>(),
+            Enc::Utf8 => TextDeserializer::from_utf8_slice(data)?.deserialize::<T>(),
+        };
+    }
+    if path == "etape" {
+        let tape = TextTape::from_slice(data)?;
+        return match enc {
+            Enc::W1252 => TextDeserializer::from_encoded_tape(&tape, Windows1252Encoding::new()).deserialize::<T>(),
+            Enc::Utf8 => TextDeserializer::from_encoded_tape(&tape, Utf8Encoding::new()).deserialize::<T>(),
+        };
+    }
     panic!("unknown text path {}", path)
 }
 
@@ -1158,6 +1172,24 @@ pub fn run_bin<T: DeserializeOwned>(path: &str, strat: FailedResolveStrategy, re
     }
     if path == "fslice" {
         return fl.deserialize_slice::<T, _>(data, res);
+    }
+    // [a_c10] the deserializer-returning builder methods called directly; `btape` sets the strategy on the finished
+    // BinaryDeserializer (BinaryDeserializer::on_failed_resolve) instead of on the builder
+    if path == "btape" {
+        let tape = BinaryTape::from_slice(data)?;
+        let mut d = BinaryDeserializer::builder_flavor(fl).from_tape(&tape, res);
+        d.on_failed_resolve(strat);
+        return d.deserialize::<T>();
+    }
+    if path == "bslice" {
+        return b.from_slice(data, res).deserialize::<T>();
+    }
+    if let Some(rest) = path.strip_prefix("breader:") {
+        let (n, sched) = rest.split_once(':').expect("breader:<buflen>:<sched>");
+        let (rd, st) = SchedRead::new(data, sched);
+        *stats = Some(st);
+        b.reader_config(jomini::binary::TokenReaderBuilder::default().buffer_len(n.parse().expect("buflen")));
+        return b.from_reader(rd, res).deserialize::<T>();
     }
     panic!("unknown binary path {}", path)
 }
